@@ -1358,6 +1358,7 @@ func runC05(tier, replay string) int {
 	if replay != "" || cliOnly {
 		min = 0
 	}
+	r.Extra("added_in_seeding_round_6", "persisted clock over a file system wrapper that fails the next opening for writing / the next write (c05_clockio.go): sequences of increment, witness, fault and re-load; an acknowledged value (Increment returned it, Witness(v) returned nil) must be there after a re-load, an increment must be above everything acknowledged or read; counters clock_io/*")
 	return r.Finish("seeded sequences of {increment, witness(random value), create bug, edit+commit (1..4 ops, two alternating authors), read, read-all, publish, fetch (second replica creates/edits/jumps ahead first), merge, re-open, delete clock files (all / edit / create / other) + re-open with the clock loader} on an on-disk go-git repository and on the in-memory repository (no re-open); every tree/commit write and clock call is logged by a decorator around repository.ClockedRepo, successful reads/merges are logged with the edit times gitraw finds in the entity; an offline checker replays the log: written edit time > running max of written/read/merged/rebuilt, > all ancestors, clock readings (AllClocks and clock files) monotone also across re-open, rebuilt clocks >= max over stored entities; retry sequences (both backends): one storage call of a Commit (blob / tree / commit / ref update, also at the 2nd or 3rd pack of a commit) fails through a one-shot switch of the decorator, the in-memory bug is kept while other bugs are created, edited, read, merged and the repository is re-opened, then the same object is committed again: the retry's packs are judged like every written commit; many-entity sequences (on disk): 8..41 bugs, the highest creation+edit (or edit) time put on the first / last / a seed-determined rank of the repository's ref listing, clock files deleted (all / edit / create) and the repository re-opened with the clock loader, count growing across the multiples of 8; thorough adds a CLI session with the real binary; non-trivial = >=3 written commits, >=1 merged entity and (on disk) >=1 re-open, or >=1 retried commit after an injected failure with >=4 written commits, or >=1 clock rebuild over >=8 bugs; distinct = backend + bucketed step-kind counts (+ failed call kinds, + entity-count bucket)",
 		min, []string{
 			"only valid data circulates, witness values stay far below the 1 000 000 hop limit",
